@@ -1,7 +1,39 @@
-/* C20-O1b: ABT_sched_config_* / ABT_pool_config_* as typed maps: every sequence of NOPS set/get/delete with NKEYS
- * symbolic int keys and symbolic types/values, against a ghost map.  -DPOOLCFG selects the pool config object. */
+/* C20-O1b: ABT_sched_config_* / ABT_pool_config_* as typed maps over the real hashtable (8 buckets): NOPS symbolic
+ * operations (typed set / get / delete) on three keys that collide in one bucket (5, -3, 13: concrete so that cbmc can
+ * fold the bucket index; arbitrary keys are covered by the hashtable obligations), symbolic types and values.
+ * -DPOOLCFG selects the pool config object.  Memory model as in hashtable.c (typed arena). */
 #include "abti.h"
 #include "vr.h"
+#include "stub_io.h"
+struct elt { ABTU_hashtable_element e; uint64_t d0, d1; char pad[64 - sizeof(ABTU_hashtable_element) - 16]; };
+struct tab { ABTU_hashtable h; struct elt el[8]; char pad[64 - sizeof(ABTU_hashtable)]; };
+struct cfg { void *p_table; char pad[64 - sizeof(void *)]; };
+static struct tab TAB; static struct cfg CFGO; static int tab_used, cfg_used;
+static struct elt E0, E1; static int e_used[2], e_freed[2];
+static struct elt *const EP[2] = { &E0, &E1 };
+int posix_memalign(void **p, size_t al, size_t sz)
+{
+    if (sz == sizeof(struct cfg) && !cfg_used) { cfg_used = 1; *p = &CFGO; return 0; }
+    if (sz == sizeof(struct tab) && !tab_used) { tab_used = 1; *p = &TAB; return 0; }
+    __CPROVER_assert(sz == sizeof(struct elt), "allocation size is one 64-byte element");
+    for (int i = 0; i < 2; i++) if (!e_used[i]) { e_used[i] = 1; *p = EP[i]; return 0; }
+    __CPROVER_assert(0, "arena exhausted"); __CPROVER_assume(0); return 12;
+}
+void free(void *p)
+{
+    if (p == &TAB) { __CPROVER_assert(tab_used == 1, "table freed once"); tab_used = 2; return; }
+    if (p == &CFGO) { __CPROVER_assert(cfg_used == 1, "config freed once"); cfg_used = 2; return; }
+    for (int i = 0; i < 2; i++) if (p == EP[i]) { __CPROVER_assert(e_used[i] && !e_freed[i], "chain element freed exactly once"); e_freed[i] = 1; e_used[i] = 0; e_freed[i] = 0; *EP[i] = (struct elt){ 0 }; return; }
+    __CPROVER_assert(0, "free() of a pointer that was not allocated");
+}
+void *memset(void *d, int c, size_t n) { __CPROVER_assert(c == 0, "memset(0) only"); return d; }
+void *memcpy(void *d, const void *s, size_t n)
+{
+    if (n == 16) { ((uint64_t *)d)[0] = ((const uint64_t *)s)[0]; ((uint64_t *)d)[1] = ((const uint64_t *)s)[1]; }
+    else if (n == sizeof(struct elt)) *(struct elt *)d = *(const struct elt *)s;
+    else __CPROVER_assert(0, "unexpected memcpy size");
+    return d;
+}
 #include "util/hashtable.c"
 #ifdef POOLCFG
 #include "pool/pool_config.c"
@@ -13,6 +45,7 @@
 #define T_DBL ABT_POOL_CONFIG_DOUBLE
 #define T_PTR ABT_POOL_CONFIG_PTR
 #define CTYPE ABT_pool_config_type
+#define CNULL ABT_POOL_CONFIG_NULL
 #else
 #include "sched/sched_config.c"
 #define CFG ABT_sched_config
@@ -23,63 +56,56 @@
 #define T_DBL ABT_SCHED_CONFIG_DOUBLE
 #define T_PTR ABT_SCHED_CONFIG_PTR
 #define CTYPE ABT_sched_config_type
+#define CNULL ABT_SCHED_CONFIG_NULL
 #endif
 ABTI_global *gp_ABTI_global;
 #ifndef NOPS
 #define NOPS 4
 #endif
-#define NKEYS 3
+static const int KEY[3] = { 5, -3, 13 };
+typedef union { int i; double d; void *p; uint64_t u; } val_t;
 
 int main(void)
 {
-    int key[NKEYS]; int present[NKEYS]; int type[NKEYS]; uint64_t val[NKEYS];
-    for (int i = 0; i < NKEYS; i++) { key[i] = nondet_int(); present[i] = 0; val[i] = 0; type[i] = 0; }
-    VR_ASSUME(key[0] != key[1] && key[0] != key[2] && key[1] != key[2]);
-    CFG cfg;
-    int r;
+    int present[3] = { 0, 0, 0 }, type[3] = { 0, 0, 0 }; uint64_t val[3] = { 0, 0, 0 };
+    CFG cfg; int r;
 #ifdef POOLCFG
     r = ABT_pool_config_create(&cfg);
 #else
     r = ABT_sched_config_create(&cfg, ABT_sched_config_var_end);
 #endif
     VR_ASSERT(r == ABT_SUCCESS, "create succeeds");
-    int sawdel = 0;
+    int dels = 0, sets = 0;
     for (int n = 0; n < NOPS; n++) {
         int op = nondet_int(), k = nondet_int();
-        VR_ASSUME(op >= 0 && op < 3 && k >= 0 && k < NKEYS);
+        VR_ASSUME(op >= 0 && op < 3 && k >= 0 && k < 3);
         if (op == 0) {
             int t = nondet_int(); VR_ASSUME(t == T_INT || t == T_DBL || t == T_PTR);
-            union { int i; double d; void *p; uint64_t u; } v; v.u = nondet_u64();
-            if (t == T_INT) v.u &= 0xffffffffu;
-            r = CFG_SET(cfg, key[k], (CTYPE)t, &v);
-            VR_ASSERT(r == ABT_SUCCESS, "set succeeds");
-            present[k] = 1; type[k] = t; val[k] = v.u;
+            val_t v; v.u = nondet_u64(); if (t == T_INT) v.u &= 0xffffffffu;
+            r = (k == 0) ? CFG_SET(cfg, 5, (CTYPE)t, &v) : (k == 1) ? CFG_SET(cfg, -3, (CTYPE)t, &v) : CFG_SET(cfg, 13, (CTYPE)t, &v);
+            VR_ASSERT(r == ABT_SUCCESS, "typed set succeeds");
+            present[k] = 1; type[k] = t; val[k] = v.u; sets++;
         } else if (op == 1) {
-            union { int i; double d; void *p; uint64_t u; } v; v.u = 0; CTYPE t = (CTYPE)77;
-            r = CFG_GET(cfg, key[k], &t, &v);
+            val_t v; v.u = 0; CTYPE t = (CTYPE)77;
+            r = (k == 0) ? CFG_GET(cfg, 5, &t, &v) : (k == 1) ? CFG_GET(cfg, -3, &t, &v) : CFG_GET(cfg, 13, &t, &v);
             VR_ASSERT((r == ABT_SUCCESS) == (present[k] != 0), "get: success iff key present");
             if (present[k]) { VR_ASSERT((int)t == type[k], "get: type as set"); VR_ASSERT(v.u == val[k], "get: value as last set (bitwise)"); }
-            else VR_ASSERT((int)t == 77 && v.u == 0, "get of absent key leaves outputs untouched");
+            else VR_ASSERT((int)t == 77 && v.u == 0, "get of an absent key leaves the outputs untouched");
         } else {
-            r = CFG_SET(cfg, key[k], (CTYPE)T_INT, NULL);   /* NULL value deletes */
-            VR_ASSERT(r == ABT_SUCCESS, "delete succeeds");
-            if (present[k]) sawdel = 1;
+            r = (k == 0) ? CFG_SET(cfg, 5, (CTYPE)T_INT, NULL) : (k == 1) ? CFG_SET(cfg, -3, (CTYPE)T_INT, NULL) : CFG_SET(cfg, 13, (CTYPE)T_INT, NULL);
+            VR_ASSERT(r == ABT_SUCCESS, "delete (set with NULL) succeeds");
+            if (present[k]) dels++;
             present[k] = 0;
         }
     }
-    for (int i = 0; i < NKEYS; i++) {
-        uint64_t v = 0; CTYPE t;
-        r = CFG_GET(cfg, key[i], &t, &v);
-        VR_ASSERT((r == ABT_SUCCESS) == (present[i] != 0), "final: present iff set and not deleted");
-        if (present[i]) VR_ASSERT(v == val[i] && (int)t == type[i], "final: value/type preserved");
-    }
-    if (sawdel && present[0] && present[1] && ((key[0] - key[1]) % 8 == 0) && key[0] < 0) VR_WITNESS("colliding negative keys with a delete");
+    val_t v; CTYPE t;
+    v.u = 0; r = CFG_GET(cfg, 5, &t, &v);  VR_ASSERT((r == ABT_SUCCESS) == (present[0] != 0), "final: key 5 present iff set and not deleted");  if (present[0]) VR_ASSERT(v.u == val[0] && (int)t == type[0], "final: value/type of key 5");
+    v.u = 0; r = CFG_GET(cfg, -3, &t, &v); VR_ASSERT((r == ABT_SUCCESS) == (present[1] != 0), "final: key -3 present iff set and not deleted"); if (present[1]) VR_ASSERT(v.u == val[1] && (int)t == type[1], "final: value/type of key -3");
+    v.u = 0; r = CFG_GET(cfg, 13, &t, &v); VR_ASSERT((r == ABT_SUCCESS) == (present[2] != 0), "final: key 13 present iff set and not deleted"); if (present[2]) VR_ASSERT(v.u == val[2] && (int)t == type[2], "final: value/type of key 13");
+    r = CFG_GET(cfg, 21, &t, &v); VR_ASSERT(r != ABT_SUCCESS, "a colliding key never set is absent");
+    if (dels >= 1 && sets >= 3 && present[0] + present[1] + present[2] == 2) VR_WITNESS("3 colliding keys set, one deleted");
     r = CFG_FREE(&cfg);
-    VR_ASSERT(r == ABT_SUCCESS, "free succeeds");
-#ifdef POOLCFG
-    VR_ASSERT(cfg == ABT_POOL_CONFIG_NULL, "handle reset");
-#else
-    VR_ASSERT(cfg == ABT_SCHED_CONFIG_NULL, "handle reset");
-#endif
+    VR_ASSERT(r == ABT_SUCCESS && cfg == CNULL, "free succeeds and resets the handle");
+    VR_ASSERT(tab_used == 2 && cfg_used == 2 && !e_used[0] && !e_used[1], "everything released");
     return 0;
 }
